@@ -305,6 +305,10 @@ func (r *Reader) readXRefStream(xref map[uint32]*xRefEntry, s *scanner) (Dict, R
 		return nil, 0, err
 	}
 	err = decodeXRefStream(xref, decoded, w, ss)
+	// release the decoders (a filter may run a helper goroutine)
+	if e2 := decoded.Close(); err == nil && e2 != nil && !IsMalformed(e2) && e2 != io.EOF {
+		err = e2
+	}
 	if err != nil {
 		return nil, 0, err
 	}
